@@ -34,7 +34,7 @@ func coqErr(err error) string {
 	if !ok {
 		name = "EOther"
 	}
-	return "(OE " + name + ` "!raw")`
+	return "(OE " + name + " " + coqStr("!raw:"+err.Error()) + ")"
 }
 
 func descErr(err error) string {
